@@ -173,12 +173,15 @@ Definition add_file (f : fs) (t : tracker) (p : path) (input_only : bool) (name 
       let tp := d ++ [name] in
       if negb (n_is_absent (look f tp)) || path_eqb tp p then (f, t, OErr 5) else
       let t1 := with_pre t (dset p (n_is_file (look f p)) (t_pre t)) in
-      let f1 := fst (mkstemp_clean f d name false) in
-      let f2 := match look f1 p with File c => put_file tp c f1 | _ => f1 end in   (* shutil.copy *)
-      let t2 := with_loc t1 (dset p tp (t_loc t1)) in
-      let t3 := if negb input_only && n_is_absent (look f2 p)
-                then with_out t2 (t_out t2 ++ [p]) else t2 in
-      (f2, t3, OOk)
+      match mkstemp_clean f d name false with
+      | (f1, OLoc _) =>
+          let f2 := match look f1 p with File c => put_file tp c f1 | _ => f1 end in   (* shutil.copy *)
+          let t2 := with_loc t1 (dset p tp (t_loc t1)) in
+          let t3 := if negb input_only && n_is_absent (look f2 p)
+                    then with_out t2 (t_out t2 ++ [p]) else t2 in
+          (f2, t3, OOk)
+      | (_, r) => (f, t1, r)     (* mkstemp raised (the tracker's directory is gone): _file_pre_exists is set already *)
+      end
   end.
 
 (* ---- FileTracker.__del__ ---- *)
@@ -393,3 +396,11 @@ Definition run_mkstemp_clean (x : sx) : sx :=
       end
   | _ => sx_bad
   end.
+
+(* ---- one life: FileTracker(tmp, drawn name n0); the calls `mid`; del ---- *)
+Definition alive (f0 : fs) (tmp : option path) (n0 : Z) (mid : list op) : state :=
+  fst (run (start f0) (Create tmp n0 :: mid)).
+Definition life (f0 : fs) (tmp : option path) (n0 : Z) (mid : list op) : state :=
+  fst (run (start f0) (Create tmp n0 :: mid ++ [Del])).
+Definition add_content (f : fs) (p : path) : Z :=
+  match look f p with File c => c | _ => empty_content end.
